@@ -1,16 +1,18 @@
 #!/bin/bash
 # tools/try_mutant.sh <patch.diff> <Cnn> [<Cnn> ...]
-# Applies a seeded change to /repo, runs the quick checks, and undoes it straight afterwards.
+# Applies a seeded change to $REPO, runs the quick checks, and undoes it straight afterwards.
 # Evidence and replays of these runs go to a scratch directory, never to /verif/evidence.
 set -u
+REPO="${VERIF_REPO:-/repo}"
+ROOT="$(cd "$(dirname "$0")/.." && pwd)"
 patch="$1"; shift
 out="${MUTANT_OUT:-/tmp/mutant-out}"; mkdir -p "$out"
-if ! git -C /repo diff --quiet; then echo "refusing: /repo has uncommitted changes"; exit 2; fi
-if ! git -C /repo apply "$patch" 2>/dev/null; then
+if ! git -C $REPO diff --quiet; then echo "refusing: $REPO has uncommitted changes"; exit 2; fi
+if ! git -C $REPO apply "$patch" 2>/dev/null; then
   # written against an older HEAD: retry with fuzz
-  if ! (cd /repo && patch -p1 -F3 -s --no-backup-if-mismatch < "$patch"); then echo "patch does not apply"; git -C /repo checkout -- .; exit 2; fi
+  if ! (cd $REPO && patch -p1 -F3 -s --no-backup-if-mismatch < "$patch"); then echo "patch does not apply"; git -C $REPO checkout -- .; exit 2; fi
 fi
-trap 'git -C /repo checkout -- . ; git -C /repo clean -fdq src test js 2>/dev/null' EXIT
+trap 'git -C $REPO checkout -- . ; git -C $REPO clean -fdq src test js 2>/dev/null' EXIT
 for id in "$@"; do
-  VERIF_EVIDENCE_DIR="$out/evidence" VERIF_FOUND_DIR="$out/found" /verif/run "$id" quick 2>&1 | grep -v "^proptest" | grep -v "^KNOWN-FINDING" | grep -E "VIOLATION|signature|detail|INCONCLUSIVE|quick:" | cut -c1-400
+  VERIF_EVIDENCE_DIR="$out/evidence" VERIF_FOUND_DIR="$out/found" VERIF_REPO="$REPO" "$ROOT/run" "$id" quick 2>&1 | grep -v "^proptest" | grep -v "^KNOWN-FINDING" | grep -E "VIOLATION|signature|detail|INCONCLUSIVE|quick:" | cut -c1-400
 done
